@@ -5,6 +5,7 @@ mod hs;
 mod c02;
 mod imw;
 mod c06;
+mod c13e;
 mod c14;
 mod life;
 mod c20rv;
@@ -35,6 +36,7 @@ fn main() {
             "c20rv" => c20rv::run(&a[2..]),
             "life" => life::run(&a[2..]),
             "c06" => c06::run(&a[2..]),
+            "c13e" => c13e::run(&a[2..]),
             "c14" => c14::run(&a[2..]),
             "c17" => c17::run(&a[2..]),
             "c03" => c03::run(&a[2..]),
